@@ -2,6 +2,7 @@
 package main
 
 import (
+	"bytes"
 	"fmt"
 	"math"
 	"sort"
@@ -245,9 +246,12 @@ func main() {
 				plan[i] = 'n'
 			}
 		}
-		sc := script(ds, string(plan), false, 2, 0)
-		sc.MaxLate = ms
-		jobs = append(jobs, job(sc, vsched.Config{P: 0, K: 0, Clock: vsched.Adversarial, Preempt: fine, MaxSteps: 20_000_000}))
+		for _, how := range []byte{'n', 'z'} { // cancelled at once (no worker has looked at the queue yet) / 20ms later (the workers sleep on it)
+			pl := bytes.ReplaceAll(plan, []byte{'n'}, []byte{how})
+			sc := script(ds, string(pl), false, 2, 0)
+			sc.MaxLate = ms
+			jobs = append(jobs, job(sc, vsched.Config{P: 0, K: 0, Clock: vsched.Adversarial, Preempt: fine, MaxSteps: 20_000_000}))
+		}
 	}
 	// seven queued futures - three near ones (1,2,3 ms, in every order) interleaved in every way with four far ones
 	// (30..60 ms) - and one of them cancelled right away: the heap must stay a heap wherever the cancelled one sat, i.e.
